@@ -139,12 +139,21 @@ def check_case(case):
     o_ref, st_ref = M.converged(ref)
     if st_ref == "exception":
         return result([], False, classes + [f"reference-exception:{type(o_ref.exc).__name__}(C13)"])
+    conts = list(CONTAINERS)
     if st_ref != "ok":
-        return result([], False, classes + ["reference-not-converged(inconclusive)"])
+        # the Fortran-dense run is not privileged: if the CSC run of the same problem converges, it is the reference
+        # and the dense container is the one under judgement
+        alt = dict(ref, storage="csc")
+        o_alt, st_alt = M.converged(alt)
+        if st_alt != "ok":
+            return result([], False, classes + ["reference-not-converged(inconclusive)"])
+        ref, o_ref = alt, o_alt
+        conts = ["dense", "C", "csc64"]
+        classes.append("csc-as-reference")
     tol = ref["solver"]["tol"]
     viol = []
     accepted = 1
-    for cont in CONTAINERS:
+    for cont in conts:
         c2 = dict(ref, storage=cont)
         o2, st2 = M.converged(c2)
         sg = dict(sig, container=cont)
@@ -167,7 +176,14 @@ def check_case(case):
                 if name not in ("FISTA", "LBFGS") and np.isfinite(Fs) and np.isfinite(Fb) and Fb > Fs + 1e-6 * (abs(Fs) + abs(Fa)):
                     viol.append(Viol(dict(sg, kind="diverges-on-container"),
                                      f"{name} on a {cont} container does not converge and returns objective {Fb!r}, above the start "
-                                     f"({Fs!r}); the Fortran-dense container converges to {Fa!r}"))
+                                     f"({Fs!r}); the reference container converges to {Fa!r}"))
+                elif np.isfinite(Fs) and np.isfinite(Fb) and Fs - Fa > 1e-6 * (abs(Fs) + abs(Fa)) and Fb - Fa > .1 * (Fs - Fa):
+                    # same algorithm, same tight budget: the reference container removes all of the initial
+                    # sub-optimality (to 1e-9), this one keeps more than a tenth of it (a frozen coordinate, not slowness:
+                    # slow designs are slow in every container)
+                    viol.append(Viol(dict(sg, kind="stalls-on-container"),
+                                     f"{name} on a {cont} container does not converge: objective {Fb!r} after the full budget (start {Fs!r}) "
+                                     f"while the Fortran-dense container converges to {Fa!r}"))
                 else:
                     classes.append(f"not-converged:{cont}(inconclusive)")
             continue
